@@ -234,3 +234,19 @@ impl ResourceAllocator {
         }
     }
 }
+
+#[cfg(feature = "verif")]
+impl ResourceAllocator {
+    /// Read-only copy of the free state of all pools (verification hook)
+    pub(crate) fn verif_pools(&self) -> Vec<crate::internal::worker::resources::pool::VerifPoolState> {
+        self.pools.iter().map(|p| p.verif_free_state()).collect()
+    }
+
+    /// Read-only copy of the concise summary of free resources (verification hook)
+    #[allow(clippy::type_complexity)]
+    pub(crate) fn verif_concise(&self) -> Vec<Vec<(u32, Vec<(u32, u32)>)>> {
+        (0..self.pools.len())
+            .map(|i| self.free_resources.get((i as u32).into()).verif_groups())
+            .collect()
+    }
+}
